@@ -7,7 +7,7 @@ use crate::model::{MV, json};
 use proptest::prelude::*;
 use serde::{Deserialize, Serialize};
 
-pub const RULE: &str = "programs from a recursion grammar: shape in {self, mutual (2 and 3 functions), via / where / map / filter / reduce callback, the callee handed straight to into / where / element-wise via (no call expression in the cycle), do-block body (also with a captured name and a helper defined after its user), anonymous cycle through a record method / a list element / self-application, a named function made in a factory's do-block and used after the block has ended, the recursive call as a do-block statement whose value is not used} x per-call expression nesting 1..32 of kind {arithmetic chain, list nesting, record nesting, conditionals, call-argument nesting, mixture, field / index access under ??, operand of a record / list / argument spread, right operand of and / or / && whose left operand already decides}, each also in a source that starts with a non-ASCII comment, x {unbounded, bounded with depth 100..900 for plain shapes}; enumerated: every shape x nesting {1, 2, 4, 8} x 2 kinds (runaway and 200-300 deep) and nesting {16, 24, 32} x all kinds (runaway; 900 deep for plain shapes); random beyond that; single-line shapes are also typed statement by statement into the interactive CLI on a pseudo-terminal (same 8 MiB stack limit). Each is run in the release `blots` binary built from the working tree with RLIMIT_STACK = 8 MiB (the default main-thread stack), RLIMIT_AS 6 GiB and a 60 s timeout. Unbounded programs must exit with status 1 and report `maximum call depth`; a signal or exit 101 is a violation. Bounded programs must exit 0 with the arithmetically expected value. Work (in-process, enumerated): linear recursions of shape {self, mutual, do-block body, record method} returning a value of type {number, null, list, record, string, boolean, empty list, function} through each of 24 value-preserving forms around the recursive call (left / right operand of ??, list / record / spread / computed-key wrap and unwrap, conditional branches, identity call / into / via / map / where / reduce, applied lambdas with plain / optional / rest parameter, do-block local) must return that value and make a number of function calls linear in the depth (depths 4, 8, 12, 16). Non-trivial = per-call nesting >= 2 or a callback / mutual / anonymous shape, or a work case; distinct by program text.";
+pub const RULE: &str = "programs from a recursion grammar: shape in {self, mutual (2 and 3 functions), via / where / map / filter / reduce callback, the callee handed straight to into / where / element-wise via (no call expression in the cycle), do-block body (also with a captured name and a helper defined after its user), anonymous cycle through a record method / a list element / self-application, a named function made in a factory's do-block and used after the block has ended, the recursive call as a do-block statement whose value is not used} x per-call expression nesting 1..32 of kind {arithmetic chain, list nesting, record nesting, conditionals, call-argument nesting, mixture, field / index access under ??, operand of a record / list / argument spread, right operand of and / or / && whose left operand already decides}, each also in a source that starts with a non-ASCII comment, x {unbounded, bounded with depth 100..900 for plain shapes, bounded with depth 1100..6000 - deeper than the limit of 1000 nested calls, which must stop it}, the recursive call also as a tail call (the whole branch of the body's conditional: `if n <= 0 then 0 else f(n - 1)`, runaway `if n < 0 then n else f(n + 1)`), bare and wrapped; enumerated: every shape x nesting {1, 2, 4, 8} x 2 kinds (runaway and 200-300 deep) and nesting {16, 24, 32} x all kinds (runaway; 900 deep for plain shapes); random beyond that; single-line shapes are also typed statement by statement into the interactive CLI on a pseudo-terminal (same 8 MiB stack limit). Each is run in the release `blots` binary built from the working tree with RLIMIT_STACK = 8 MiB (the default main-thread stack), RLIMIT_AS 6 GiB and a 60 s timeout. Unbounded programs must exit with status 1 and report `maximum call depth`; a signal or exit 101 is a violation. Bounded programs up to 900 deep must exit 0 with the arithmetically expected value; bounded programs deeper than 1000 must report the depth error like unbounded ones (a recursion that completes beyond the limit means that an unbounded one of that shape never ends). Work (in-process, enumerated): linear recursions of shape {self, mutual, do-block body, record method} returning a value of type {number, null, list, record, string, boolean, empty list, function} through each of 24 value-preserving forms around the recursive call (left / right operand of ??, list / record / spread / computed-key wrap and unwrap, conditional branches, identity call / into / via / map / where / reduce, applied lambdas with plain / optional / rest parameter, do-block local) must return that value and make a number of function calls linear in the depth (depths 4, 8, 12, 16). Non-trivial = per-call nesting >= 2 or a callback / mutual / anonymous shape, or a work case; distinct by program text.";
 pub const ASSUMPTIONS: &[&str] = &[
     "the real binary decides crashes, depth errors and completion; a timeout or memory-limit hit is counted as inconclusive, never as a violation",
     "work: 'completes normally' for recursion a few hundred calls deep presupposes that a recursion making one recursive call per level does work proportional to its depth; this is decided in-process without a clock by counting the function calls the evaluator records (get_function_call_stats) at depths 4, 8, 12, 16 - more than six times the linear extrapolation from depth 4 is reported as super-linear work (an operand evaluated twice per level gives 2^depth)",
@@ -26,6 +26,10 @@ pub struct Case {
     /// typed line by line into the interactive CLI on a pseudo-terminal instead of run as a file
     #[serde(default)]
     pub repl: bool,
+    /// the recursive call is the whole branch of the body's conditional (a tail call): `if n <= 0 then 0 else f(n - 1)`,
+    /// runaway form `if n < 0 then n else f(n + 1)`
+    #[serde(default)]
+    pub tail: bool,
 }
 
 pub struct Recursion;
@@ -86,7 +90,9 @@ pub fn program(c: &Case) -> (String, Option<f64>) {
     let body = |callee: &str| -> (String, u32) {
         let (w, adds) = wrap(&rec_call(callee), c.nesting, c.kind);
         match c.bounded {
+            Some(_) if c.tail => (format!("if n <= 0 then 0 else {}", w), adds),
             Some(_) => (format!("if n <= 0 then 0 else 1 + ({})", w), adds + 1),
+            None if c.tail => (format!("if n < 0 then n else {}", w), adds),
             None => (w, adds),
         }
     };
@@ -191,7 +197,10 @@ impl Check for Recursion {
         };
         ctx.label(shape);
         ctx.label(bucket);
-        ctx.label(if c.bounded.is_some() { "bounded" } else { "unbounded" });
+        ctx.label(match c.bounded { Some(d) if d > 1000 => "bounded-beyond-the-limit", Some(_) => "bounded", None => "unbounded" });
+        if c.tail {
+            ctx.label("tail-call");
+        }
         if c.nesting >= 2 || c.shape != 0 {
             ctx.nontrivial(hash_str(&src));
         }
@@ -220,10 +229,12 @@ impl Check for Recursion {
         if r.code == Some(101) || r.code.map(|c| c > 1).unwrap_or(false) {
             fail!(format!("{}:{}:{}:exit{}", kind, shape, bucket, r.code.unwrap()), "the CLI exited with {}\n--- program:\n{}--- stderr: {}", r.describe(), src, r.stderr.chars().take(300).collect::<String>());
         }
+        // a recursion that would nest deeper than the limit of 1000 calls must be stopped by it
+        let expected = if c.bounded.map(|d| d > 1000).unwrap_or(false) { None } else { expected };
         match expected {
             None => {
                 if r.code != Some(1) || !(r.stdout.contains("maximum call depth") || r.stderr.contains("maximum call depth")) {
-                    fail!(format!("unbounded:{}:{}:no-depth-error", shape, bucket), "expected exit 1 with 'maximum call depth'; got {} stdout {:?} stderr {:?}\n--- program:\n{}", r.describe(), r.stdout.chars().take(300).collect::<String>(), r.stderr.chars().take(200).collect::<String>(), src);
+                    fail!(format!("{}:{}:{}:no-depth-error", if c.bounded.is_some() { "beyond-limit" } else { "unbounded" }, shape, bucket), "expected exit 1 with 'maximum call depth'; got {} stdout {:?} stderr {:?}\n--- program:\n{}", r.describe(), r.stdout.chars().take(300).collect::<String>(), r.stderr.chars().take(200).collect::<String>(), src);
                 }
                 Ok(())
             }
@@ -436,11 +447,14 @@ impl Check for Work {
 }
 
 pub fn strategy() -> BoxedStrategy<Case> {
-    (0u8..18, prop_oneof![3 => 1u8..5, 2 => 5u8..13, 1 => 13u8..33], 0u8..19, prop::option::weighted(0.35, 100u16..900))
-        .prop_map(|(shape, nesting, kind, bounded)| {
+    (0u8..18, prop_oneof![3 => 1u8..5, 2 => 5u8..13, 1 => 13u8..33], 0u8..19, prop::option::weighted(0.35, prop_oneof![4 => 100u16..900, 1 => 1100u16..6000]), any::<u8>())
+        .prop_map(|(shape, nesting, kind, bounded, t)| {
+            let plain = matches!(shape, 0 | 1 | 2 | 8 | 9 | 10 | 11 | 12 | 15 | 16 | 17);
+            let tail = plain && t % 4 == 0;
+            let nesting = if tail && t % 8 == 0 { 0 } else { nesting };
             // bounded variants: plain shapes only (callback shapes consume several call levels per step)
             let bounded = if matches!(shape, 0 | 1 | 2 | 8 | 9 | 10 | 11 | 12 | 15 | 16 | 17) { bounded } else { bounded.map(|d| d.min(250)) };
-            Case { shape, nesting, kind, bounded, repl: false }
+            Case { shape, nesting, kind, bounded, repl: false, tail }
         })
         .boxed()
 }
@@ -452,36 +466,49 @@ pub fn run(ctx: &mut Ctx) {
         // the recursive call as the operand of a record / list / argument spread
         for nesting in [1u8, 3] {
             for kind in [16u8, 17, 18] {
-                fixed.push(Case { shape, nesting, kind, bounded: None, repl: false });
-                fixed.push(Case { shape, nesting, kind, bounded: Some(if matches!(shape, 3..=7 | 13 | 14) { 150 } else { 250 }), repl: false });
+                fixed.push(Case { shape, nesting, kind, bounded: None, repl: false, tail: false });
+                fixed.push(Case { shape, nesting, kind, bounded: Some(if matches!(shape, 3..=7 | 13 | 14) { 150 } else { 250 }), repl: false, tail: false });
             }
         }
         for kind in [19u8, 20, 21] {
-            fixed.push(Case { shape, nesting: 1, kind, bounded: None, repl: false });
+            fixed.push(Case { shape, nesting: 1, kind, bounded: None, repl: false, tail: false });
         }
         for nesting in [1u8, 2, 4, 8] {
             for kind in [0u8, 4, 6, 7, 8, 13] {
-                fixed.push(Case { shape, nesting, kind, bounded: None, repl: false });
-                fixed.push(Case { shape, nesting, kind, bounded: Some(if matches!(shape, 3..=7 | 13 | 14) { 200 } else { 300 }), repl: false });
+                fixed.push(Case { shape, nesting, kind, bounded: None, repl: false, tail: false });
+                fixed.push(Case { shape, nesting, kind, bounded: Some(if matches!(shape, 3..=7 | 13 | 14) { 200 } else { 300 }), repl: false, tail: false });
             }
         }
         // deep per-call nesting of every kind, runaway and just below the limit
         for nesting in [16u8, 24, 32] {
             for kind in 0u8..6 {
-                fixed.push(Case { shape, nesting, kind, bounded: None, repl: false });
+                fixed.push(Case { shape, nesting, kind, bounded: None, repl: false, tail: false });
             }
             if matches!(shape, 0 | 1 | 2 | 8 | 9 | 10 | 11 | 12 | 15 | 16 | 17) {
-                fixed.push(Case { shape, nesting, kind: 0, bounded: Some(900), repl: false });
-                fixed.push(Case { shape, nesting, kind: 5, bounded: Some(900), repl: false });
+                fixed.push(Case { shape, nesting, kind: 0, bounded: Some(900), repl: false, tail: false });
+                fixed.push(Case { shape, nesting, kind: 5, bounded: Some(900), repl: false, tail: false });
             }
+        }
+    }
+    // tail calls (the recursive call is the whole branch of the body's conditional), bare and wrapped:
+    // runaway, a few hundred deep, and deeper than the limit of 1000 nested calls
+    for shape in [0u8, 1, 2, 8, 9, 10, 11, 12, 15, 16, 17] {
+        for (nesting, kind) in [(0u8, 0u8), (1, 1), (1, 3), (2, 4), (3, 5)] {
+            for bounded in [None, Some(300u16), Some(1500), Some(5000)] {
+                fixed.push(Case { shape, nesting, kind, bounded, repl: false, tail: true });
+            }
+        }
+        // the ordinary (non-tail) forms deeper than the limit as well
+        for bounded in [Some(1200u16), Some(4000)] {
+            fixed.push(Case { shape, nesting: 1, kind: 0, bounded, repl: false, tail: false });
         }
     }
     // the interactive mode (statements typed on a pseudo-terminal): single-line shapes
     for shape in [0u8, 1, 3, 5, 9, 12, 14] {
         for (nesting, kind) in [(1u8, 0u8), (4, 0), (12, 0), (12, 5), (24, 0)] {
-            fixed.push(Case { shape, nesting, kind, bounded: None, repl: true });
+            fixed.push(Case { shape, nesting, kind, bounded: None, repl: true, tail: false });
             if matches!(shape, 0 | 1 | 9 | 12) {
-                fixed.push(Case { shape, nesting, kind, bounded: Some(300), repl: true });
+                fixed.push(Case { shape, nesting, kind, bounded: Some(300), repl: true, tail: false });
             }
         }
     }
